@@ -3,6 +3,7 @@ package netsim
 import (
 	"fmt"
 	"net"
+	"runtime"
 	"sync"
 	"time"
 
@@ -41,13 +42,13 @@ type Peer struct {
 	Override func(p *Peer, m wire.Message) bool
 
 	// Behaviour knobs of the default server.
-	EmptyHeaders bool  // answer getheaders with an empty headers message
-	Silent       bool  // answer nothing after the handshake (pings too)
-	LieCFFrom    int32 // >0: filter hashes at heights >= this are falsified
+	EmptyHeaders bool   // answer getheaders with an empty headers message
+	Silent       bool   // answer nothing after the handshake (pings too)
+	LieCFFrom    int32  // >0: filter hashes at heights >= this are falsified
 	LieCFKind    string // how: see FHash
-	LieCkptFrom  int32 // >0: cfcheckpt entries at heights >= this are falsified
-	NoFilters    bool  // do not answer getcfilters
-	NoBlocks     bool  // do not answer getdata(block)
+	LieCkptFrom  int32  // >0: cfcheckpt entries at heights >= this are falsified
+	NoFilters    bool   // do not answer getcfilters
+	NoBlocks     bool   // do not answer getdata(block)
 
 	// Delay, if >0, is the virtual time the peer takes to answer each
 	// request (requests are answered one after the other).
@@ -85,8 +86,34 @@ func (p *Peer) SetView(n *kit.Node, announce bool) {
 	}
 }
 
-// Send writes a message on the current session (no-op when disconnected).
+// serveConns maps the goroutine serving a session to that session's
+// connection: a reply sent from inside a request handler (default server or
+// Override) goes out on the connection the request came in on, also when the
+// client holds a second, newer connection to the same peer.
+var serveConns sync.Map
+
+func goid() int64 {
+	var buf [64]byte
+	n := runtime.Stack(buf[:], false)
+	// "goroutine 123 [running]:..."
+	var id int64
+	for _, ch := range buf[10:n] {
+		if ch < '0' || ch > '9' {
+			break
+		}
+		id = id*10 + int64(ch-'0')
+	}
+	return id
+}
+
+// Send writes a message on the session whose request is being handled by the
+// calling goroutine, otherwise on the most recent session (no-op when
+// disconnected).
 func (p *Peer) Send(m wire.Message) bool {
+	if c, ok := serveConns.Load(goid()); ok {
+		p.send(c.(net.Conn), m)
+		return true
+	}
 	p.mu.Lock()
 	c := p.conn
 	p.mu.Unlock()
@@ -189,7 +216,10 @@ func (p *Peer) Serve(c net.Conn) {
 	p.conn = c
 	p.Sessions++
 	p.mu.Unlock()
+	id := goid()
+	serveConns.Store(id, c)
 	defer func() {
+		serveConns.Delete(id)
 		c.Close()
 		p.mu.Lock()
 		if p.conn == c {
